@@ -152,7 +152,7 @@ theorem readQual_lines (n : Nat) (hn : n < 2 ^ 64) : ∀ (Q : List Nat) (v rest 
     obtain ⟨v', hv'⟩ := ih (dec j) rest (fun x hx => h x (by simp [hx]))
     refine ⟨v', ?_⟩
     simp only [List.length_cons, readQual, sizeLines_cons, List.append_assoc]
-    rw [readSize_line 0 j v _ (by omega)]
+    rw [readSize_line n j v _ (by omega)]
     simp only []
     rw [if_neg (by omega), hv']
 
